@@ -4,47 +4,38 @@ import Tally.Spec.C02
 # C02 — gauge reports carry the latest value, never a stale or invented one
 
 All theorems quantify over every event list the model accepts: one writer (two stores per Update),
-any number of reporter threads, any interleaving.
+any number of reporter threads, any interleaving; reading the value and handing it to the reporter are
+separate steps (a reporter can be pre-empted in between).
 -/
 namespace Tally.Props.C02
 open Tally Tally.Gauge
 
 def ite01 (b : Bool) : Nat := if b then 1 else 0
+def opt01 {α : Type} (o : Option α) : Nat := if o.isSome then 1 else 0
 
 /-- the invariant carried through every interleaving -/
 structure Inv (s : State) : Prop where
   curr_head : ∀ v l, s.updates = v :: l → s.curr = v
-  active_nonempty : (s.updated = true ∨ s.swapped ≠ [] ∨ s.writerMid = true) → s.updates ≠ []
+  active_nonempty : (s.updated = true ∨ s.holder ≠ none ∨ s.writerMid = true) → s.updates ≠ []
   delivered_mem : ∀ v ∈ s.delivered, v ∈ s.updates
-  nodup : s.swapped.Nodup
-  count : s.delivered.length + s.swapped.length + ite01 s.updated ≤ s.flagStores
+  loaded_mem : ∀ v, s.loaded = some v → v ∈ s.updates
+  loaded_holder : s.holder = none → s.loaded = none
+  count : s.delivered.length + opt01 s.holder + ite01 s.updated ≤ s.flagStores
   stores : s.flagStores + ite01 s.writerMid = s.updates.length
-  latest : s.writerMid = false → s.updates ≠ [] →
-    s.updated = true ∨ s.swapped ≠ [] ∨ s.delivered.head? = some s.curr
+  /-- a value that was read and is no longer current means the writer has come back: its flag is up
+  (or about to be), so the newer value will still be delivered -/
+  stale_flag : ∀ v, s.loaded = some v → v ≠ s.curr → s.updated = true ∨ s.writerMid = true
+  /-- nothing flagged, nothing in flight: the reporter's most recent value is the current one -/
+  quiet : s.holder = none → s.writerMid = false → s.updated = false → s.updates ≠ [] →
+    s.delivered.head? = some s.curr
 
 theorem inv_init : Inv init := by
-  constructor <;> simp [init, ite01]
+  constructor <;> simp [init, ite01, opt01]
 
-theorem length_filter_ne (l : List Nat) (t : Nat) (hn : l.Nodup) (hm : t ∈ l) :
-    (l.filter (· != t)).length + 1 = l.length := by
-  induction l with
-  | nil => simp at hm
-  | cons a l ih =>
-    simp only [List.nodup_cons] at hn
-    by_cases ha : a = t
-    · subst ha
-      have : l.filter (· != a) = l := by
-        apply List.filter_eq_self.mpr
-        intro x hx; simp only [bne_iff_ne, ne_eq]; intro e; subst e; exact hn.1 hx
-      simp [List.filter, this]
-    · have hm' : t ∈ l := by
-        rcases List.mem_cons.mp hm with h | h
-        · exact absurd h.symm ha
-        · exact h
-      have hb : (a != t) = true := by simp [ha]
-      simp only [List.filter, hb, List.length_cons]
-      have := ih hn.2 hm'
-      omega
+theorem curr_mem {s : State} (h : Inv s) (hne : s.updates ≠ []) : s.curr ∈ s.updates := by
+  cases hu : s.updates with
+  | nil => exact absurd hu hne
+  | cons v l => rw [h.curr_head v l hu]; simp
 
 theorem inv_step (s s' : State) (e : Ev) (h : Inv s) (hs : step s e = some s') : Inv s' := by
   cases e with
@@ -59,10 +50,12 @@ theorem inv_step (s s' : State) (e : Ev) (h : Inv s) (hs : step s e = some s') :
       · intro v' l he; simp only [List.cons.injEq] at he; exact he.1
       · intro _; simp
       · intro x hx; exact List.mem_cons_of_mem _ (h.delivered_mem x hx)
-      · exact h.nodup
+      · intro x hx; exact List.mem_cons_of_mem _ (h.loaded_mem x hx)
+      · exact h.loaded_holder
       · exact h.count
-      · have := h.stores; simp only [hm', ite01, List.length_cons, Bool.false_eq_true, if_false, if_true] at *; omega
-      · intro hf; simp at hf
+      · have := h.stores; simp [hm', ite01] at this ⊢; omega
+      · intro _ _ _; right; rfl
+      · intro _ hw; simp at hw
   | storeFlag =>
     simp only [step] at hs
     split at hs
@@ -70,111 +63,158 @@ theorem inv_step (s s' : State) (e : Ev) (h : Inv s) (hs : step s e = some s') :
     · next hm =>
       simp only [Option.some.injEq] at hs; subst hs
       have hm' : s.writerMid = true := by simpa using hm
-      have hne := h.active_nonempty (Or.inr (Or.inr hm'))
-      -- while the writer is mid-update the flag it set earlier may still be up: count is about completed flag stores
       constructor
       · exact h.curr_head
-      · intro _; exact hne
+      · intro _; exact h.active_nonempty (Or.inr (Or.inr hm'))
       · exact h.delivered_mem
-      · exact h.nodup
-      · have := h.count; simp only [ite01] at *; split at this <;> simp <;> omega
-      · have := h.stores; simp only [hm', ite01] at *; simp at *; omega
-      · intro _ _; exact Or.inl rfl
+      · exact h.loaded_mem
+      · exact h.loaded_holder
+      · have hc := h.count
+        have hle : ite01 s.updated ≤ 1 := by unfold ite01; split <;> omega
+        simp only [ite01] at hc hle ⊢; simp; omega
+      · have := h.stores; simp [hm', ite01] at this ⊢; omega
+      · intro _ _ _; left; rfl
+      · intro _ _ hu; simp at hu
   | swap t =>
     simp only [step] at hs
     split at hs
     · cases hs
-    · next hc =>
+    · next hh =>
       split at hs
       · next hu =>
         simp only [Option.some.injEq] at hs; subst hs
-        have hnc : t ∉ s.swapped := by simpa using hc
+        have hl : s.loaded = none := h.loaded_holder hh
         constructor
         · exact h.curr_head
         · intro _; exact h.active_nonempty (Or.inl hu)
         · exact h.delivered_mem
-        · exact List.nodup_cons.mpr ⟨hnc, h.nodup⟩
-        · have := h.count; simp only [hu, ite01, List.length_cons] at *; simp at *; omega
+        · exact h.loaded_mem
+        · intro hc; simp at hc
+        · have hc := h.count; simp only [hh, hu, ite01, opt01] at hc ⊢; simp at hc ⊢; omega
         · exact h.stores
-        · intro _ _; exact Or.inr (Or.inl (by simp))
+        · intro v hv; simp [hl] at hv
+        · intro hc; simp at hc
       · simp only [Option.some.injEq] at hs; subst hs; exact h
   | load t =>
     simp only [step] at hs
     split at hs
-    · cases hs
     · next hc =>
       simp only [Option.some.injEq] at hs; subst hs
-      have hmem : t ∈ s.swapped := by simpa using hc
-      have hne : s.swapped ≠ [] := by intro e; rw [e] at hmem; cases hmem
-      have hupd := h.active_nonempty (Or.inr (Or.inl hne))
+      have hne : s.updates ≠ [] := h.active_nonempty (Or.inr (Or.inl (by rw [hc.1]; simp)))
       constructor
       · exact h.curr_head
-      · intro hh
-        exact hupd
-      · intro x hx
-        rcases List.mem_cons.mp hx with rfl | hx
-        · cases hu : s.updates with
-          | nil => exact absurd hu hupd
-          | cons v l => rw [h.curr_head v l hu]; simp
-        · exact h.delivered_mem x hx
-      · exact h.nodup.filter _
-      · have := h.count
-        have hl := length_filter_ne s.swapped t h.nodup hmem
-        simp only [List.length_cons] at *; omega
+      · exact h.active_nonempty
+      · exact h.delivered_mem
+      · intro v hv; simp only [Option.some.injEq] at hv; subst hv
+        show s.curr ∈ s.updates
+        exact curr_mem h hne
+      · intro hn; rw [hc.1] at hn; cases hn
+      · exact h.count
       · exact h.stores
-      · intro _ _; exact Or.inr (Or.inr (by simp))
+      · intro v hv hne'; simp only [Option.some.injEq] at hv; exact absurd hv.symm hne'
+      · intro hn; rw [hc.1] at hn; cases hn
+    · cases hs
+  | deliver t =>
+    simp only [step] at hs
+    split at hs
+    · next v hl =>
+      split at hs
+      · next hh =>
+        simp only [Option.some.injEq] at hs; subst hs
+        constructor
+        · exact h.curr_head
+        · intro hor
+          rcases hor with hu | hn | hw
+          · exact h.active_nonempty (Or.inl hu)
+          · simp at hn
+          · exact h.active_nonempty (Or.inr (Or.inr hw))
+        · intro x hx
+          rcases List.mem_cons.mp hx with rfl | hx
+          · exact h.loaded_mem _ hl
+          · exact h.delivered_mem x hx
+        · intro x hx; simp at hx
+        · intro _; rfl
+        · have hc := h.count; simp only [hh, opt01, List.length_cons] at hc ⊢; simp at hc ⊢; omega
+        · exact h.stores
+        · intro x hx; simp at hx
+        · intro _ hw hu _
+          by_cases hvc : v = s.curr
+          · simp [hvc]
+          · rcases h.stale_flag v hl hvc with h1 | h1
+            · rw [hu] at h1; cases h1
+            · rw [hw] at h1; cases h1
+      · cases hs
+    · cases hs
 
 theorem inv_run (s s' : State) (es : List Ev) (h : Inv s) (hr : run s es = some s') : Inv s' := by
   induction es generalizing s with
   | nil => simp only [run, Option.some.injEq] at hr; subst hr; exact h
   | cons e es ih =>
     simp only [run] at hr
-    cases h1 : step s e with
-    | none => simp [h1] at hr
-    | some s1 => simp only [h1] at hr; exact ih s1 (inv_step s s1 e h h1) hr
+    split at hr
+    · cases hr
+    · next s1 hs => exact ih s1 (inv_step s s1 e h hs) hr
 
 /-- **(i)** every delivered value is, bit for bit, a value that was passed to Update. -/
 theorem delivered_is_an_update (es : List Ev) (s : State) (hr : run init es = some s) :
     ∀ v ∈ s.delivered, v ∈ s.updates :=
   (inv_run init s es inv_init hr).delivered_mem
 
-/-- **(ii)** deliveries (plus those still in flight, plus a raised flag) never exceed the number of
+/-- **(ii)** deliveries (plus the one in flight, plus a raised flag) never exceed the number of
 completed updates, which never exceeds the number of Update calls begun. -/
 theorem count_le (es : List Ev) (s : State) (hr : run init es = some s) :
-    s.delivered.length + s.swapped.length + ite01 s.updated ≤ s.flagStores ∧ s.flagStores ≤ s.updates.length := by
+    s.delivered.length + opt01 s.holder + ite01 s.updated ≤ s.flagStores ∧ s.flagStores ≤ s.updates.length := by
   have h := inv_run init s es inv_init hr
   exact ⟨h.count, by have := h.stores; omega⟩
 
 /-- **(iii)** at quiescence (writer idle, no reporter between swap and delivery) the last update is
-either still flagged for the next pass, or it is the reporter's most recent value. -/
+either still flagged for the next pass, or it is the reporter's most recent value — whatever visits
+overlapped the updates before. -/
 theorem quiescent_latest (es : List Ev) (s : State) (hr : run init es = some s)
-    (hw : s.writerMid = false) (hq : s.swapped = []) (v : UInt64) (l : List UInt64) (hu : s.updates = v :: l) :
+    (hw : s.writerMid = false) (hq : s.holder = none) (v : UInt64) (l : List UInt64) (hu : s.updates = v :: l) :
     (s.updated = true ∧ s.curr = v) ∨ s.delivered.head? = some v := by
   have h := inv_run init s es inv_init hr
   have hc := h.curr_head v l hu
-  rcases h.latest hw (by rw [hu]; simp) with h1 | h1 | h1
-  · exact Or.inl ⟨h1, hc⟩
-  · exact absurd hq h1
-  · exact Or.inr (by rw [h1, hc])
+  cases hup : s.updated with
+  | true => exact Or.inl ⟨rfl, hc⟩
+  | false =>
+    right
+    have := h.quiet hq hw hup (by rw [hu]; simp)
+    rw [hc] at this; exact this
+
+/-- deliveries of one gauge never overtake each other: in every reachable state, at most one reporter
+is between the swap and the reporter call, and a value that was read earlier than the current one is
+delivered only while the newer one is still flagged for delivery (so a newer value is never followed,
+for good, by an older one).  This is what the report mutex (repair D13) buys. -/
+theorem stale_value_is_followed_by_newer (es : List Ev) (s : State) (hr : run init es = some s)
+    (v : UInt64) (hl : s.loaded = some v) (hne : v ≠ s.curr) : s.updated = true ∨ s.writerMid = true :=
+  (inv_run init s es inv_init hr).stale_flag v hl hne
 
 /-- the first pass that starts after updates have stopped leaves the most recent value equal to the
-last update: a solo visit from a quiescent state -/
+last update: a visit from any state in which the writer is idle and no visit is in flight — whatever
+happened before — -/
 theorem first_pass_after_updates_delivers_last (es : List Ev) (s : State) (hr : run init es = some s)
-    (hw : s.writerMid = false) (hq : s.swapped = []) (v : UInt64) (l : List UInt64) (hu : s.updates = v :: l) (t : Nat) :
-    ∃ s', run s (if s.updated then [.swap t, .load t] else [.swap t]) = some s'
-      ∧ s'.delivered.head? = some v ∧ s'.updated = false ∧ s'.swapped = [] := by
-  rcases quiescent_latest es s hr hw hq v l hu with ⟨h1, h2⟩ | h1
-  · refine ⟨{ s with updated := false, swapped := [], delivered := s.curr :: s.delivered }, ?_, ?_, rfl, rfl⟩
-    · simp [h1, run, step, hq]
-    · simp [h2]
-  · by_cases hupd : s.updated = true
-    · have hc := (inv_run init s es inv_init hr).curr_head v l hu
-      refine ⟨{ s with updated := false, swapped := [], delivered := s.curr :: s.delivered }, ?_, ?_, rfl, rfl⟩
-      · simp [hupd, run, step, hq]
-      · simp [hc]
-    · have hupd' : s.updated = false := by simpa using hupd
-      refine ⟨s, ?_, h1, hupd', hq⟩
-      simp [hupd', run, step, hq]
+    (hw : s.writerMid = false) (hq : s.holder = none) (v : UInt64) (l : List UInt64) (hu : s.updates = v :: l) (t : Nat) :
+    ∃ s', run s (if s.updated then [.swap t, .load t, .deliver t] else [.swap t]) = some s'
+      ∧ s'.delivered.head? = some v ∧ s'.updated = false ∧ s'.holder = none := by
+  have h := inv_run init s es inv_init hr
+  have hc := h.curr_head v l hu
+  have hl : s.loaded = none := h.loaded_holder hq
+  cases hup : s.updated with
+  | true =>
+    refine ⟨{ s with updated := false, holder := none, loaded := none, delivered := s.curr :: s.delivered }, ?_, ?_, rfl, rfl⟩
+    · simp [run, step, hup, hq, hl]
+    · simp [hc]
+  | false =>
+    refine ⟨s, ?_, ?_, hup, hq⟩
+    · simp [run, step, hup, hq]
+    · have := h.quiet hq hw hup (by rw [hu]; simp)
+      rw [hc] at this; exact this
+
+/-- … and while such a visit is in flight no other visit of this gauge can start (the report mutex):
+there is no second reporter whose stale value could land after it. -/
+theorem visits_are_exclusive (s : State) (t u : Nat) (h : s.holder = some t) : step s (.swap u) = none := by
+  simp [step, h]
 
 /-- **(iv)** a gauge not updated since it was last delivered is not delivered again: a visit that finds
 the flag down delivers nothing. -/
@@ -183,40 +223,60 @@ theorem no_redelivery (s s' : State) (t : Nat) (hu : s.updated = false) (hs : st
   simp only [step] at hs
   split at hs
   · cases hs
-  · simp only [hu, Bool.false_eq_true, if_false, Option.some.injEq] at hs; exact hs.symm
+  · split at hs
+    · next h => rw [hu] at h; cases h
+    · simpa using hs.symm
 
 /-- the oracle the driver applies to the observed trace accepts the model's trace at quiescence after
 the flag has been consumed (lists are most-recent-first in the model, oldest-first in the oracle) -/
 theorem spec_holds (es : List Ev) (s : State) (hr : run init es = some s)
-    (hw : s.writerMid = false) (hq : s.swapped = []) (hf : s.updated = false) :
+    (hw : s.writerMid = false) (hq : s.holder = none) (hf : s.updated = false) :
     Spec.C02.holds s.updates.reverse s.delivered.reverse [] = none := by
   have h := inv_run init s es inv_init hr
   have h1 : (s.delivered.reverse.all fun v => s.updates.reverse.contains v) = true := by
-    rw [List.all_eq_true]; intro v hv
-    simp only [List.mem_reverse] at hv
-    simp [h.delivered_mem v hv]
-  have h2 : s.delivered.reverse.length ≤ s.updates.reverse.length := by
-    have := (count_le es s hr); simp only [List.length_reverse]; omega
+    simp only [List.all_eq_true, List.mem_reverse, List.contains_eq_mem, decide_eq_true_eq]
+    exact h.delivered_mem
+  have h2 : s.delivered.length ≤ s.updates.length := by
+    have := h.count; have := h.stores; omega
   have h3 : (s.updates.reverse.isEmpty || s.delivered.reverse.getLast? == s.updates.reverse.getLast?) = true := by
     cases hu : s.updates with
     | nil => simp
     | cons v l =>
-      rcases quiescent_latest es s hr hw hq v l hu with ⟨h', _⟩ | h'
-      · rw [hf] at h'; cases h'
-      · simp [List.getLast?_reverse, h']
+      have := h.quiet hq hw hf (by rw [hu]; simp)
+      rw [h.curr_head v l hu] at this
+      simp [List.getLast?_reverse, this]
   unfold Spec.C02.holds
   rw [h1, h3]
-  simp only [List.length_reverse] at h2
   simp [h2]
 
-/-! ### non-vacuity -/
-example : run init [.storeValue 7, .swap 1, .storeFlag, .swap 2, .storeValue 9, .load 2, .storeFlag, .swap 1, .load 1]
-    = some { curr := 9, updated := false, writerMid := false, swapped := [], delivered := [9, 9], updates := [9, 7], flagStores := 2 } := by
+/-! ## the code before repair D13 (no report mutex): a stale visit delivers after a newer value -/
+
+/-- Update(1); reporter 1 consumes the flag and reads 1; Update(2); reporter 2 visits completely and
+delivers 2; reporter 1 delivers 1.  Updates have stopped, the flag is down, nobody is in flight — and the
+reporter's most recent value is 1. -/
+def legacyStaleSchedule : List Ev :=
+  [.storeValue 1, .storeFlag, .swap 1, .load 1, .storeValue 2, .storeFlag, .swap 2, .load 2, .deliver 2, .deliver 1]
+
+theorem legacy_stale_delivery_counterexample :
+    Legacy.run Legacy.init legacyStaleSchedule
+      = some { curr := 2, updated := false, writerMid := false, swapped := [], loaded := [], delivered := [1, 2], updates := [2, 1] }
+    ∧ Spec.C02.holds [1, 2] [2, 1] [] = some "latest-value" := by
   decide
 
-example : Spec.C02.holds [7, 9] [9, 9] [] = none :=
-  spec_holds [.storeValue 7, .swap 1, .storeFlag, .swap 2, .storeValue 9, .load 2, .storeFlag, .swap 1, .load 1]
-    { curr := 9, updated := false, writerMid := false, swapped := [], delivered := [9, 9], updates := [9, 7], flagStores := 2 }
+/-- the repaired model rejects that schedule: reporter 2's swap is not enabled while reporter 1 is inside -/
+example : run init legacyStaleSchedule = none := by decide
+
+/-! ## non-vacuity -/
+
+/-- a run with an update between a reporter's read and its delivery, and overlapping visits queued on
+the mutex: the hypotheses of the theorems above are met by a non-trivial state -/
+example : run init [.storeValue 7, .storeFlag, .swap 1, .load 1, .storeValue 9, .storeFlag, .deliver 1, .swap 2, .load 2, .deliver 2]
+    = some { curr := 9, updated := false, writerMid := false, holder := none, loaded := none, delivered := [9, 7], updates := [9, 7], flagStores := 2 } := by
+  decide
+
+example : Spec.C02.holds [7, 9] [7, 9] [] = none :=
+  spec_holds [.storeValue 7, .storeFlag, .swap 1, .load 1, .storeValue 9, .storeFlag, .deliver 1, .swap 2, .load 2, .deliver 2]
+    { curr := 9, updated := false, writerMid := false, holder := none, loaded := none, delivered := [9, 7], updates := [9, 7], flagStores := 2 }
     (by decide) rfl rfl rfl
 
 end Tally.Props.C02
